@@ -135,7 +135,7 @@ Proof.
     { eapply Hown; eauto. simpl. rewrite Nat.eqb_refl. destruct b; lia. }
     eapply (lock_ok_step st st' t th th' c 0 1 _ L Hth H); [ | eassumption | ].
     + intro c0. rewrite H0, H1. destruct b; rewrite !hcnt_cons; simpl; destruct (Nat.eqb c0 c); lia.
-    + intros c0 t'. pose proof (depth_rel (mlocks st) c t c0 t' Hd). lia.
+    + intros c0 t'. pose proof (depth_rel (mlocks st) c t c0 t' Hd). destruct (Nat.eqb c0 c && Nat.eqb t' t); lia.
   - (* the producer raises: one or two levels released *)
     assert (Hd : (if b then 2 else 1) <= depth (nth_error (mlocks st) c) t).
     { rewrite <- (L c t th Hth), H0, hcnt_cons. simpl. rewrite Nat.eqb_refl. lia. }
@@ -152,7 +152,7 @@ Proof.
     + eapply (lock_ok_step st st' t th th' c 0 1 _ L Hth H); [ | eassumption | ].
       * intro c0. rewrite H0, H1, !hcnt_cons. simpl. destruct (Nat.eqb c0 c); lia.
       * intros c0 t'. assert (Hd1 : 1 <= depth (nth_error (mlocks st) c) t) by lia.
-        pose proof (depth_rel (mlocks st) c t c0 t' Hd1). lia.
+        pose proof (depth_rel (mlocks st) c t c0 t' Hd1). destruct (Nat.eqb c0 c && Nat.eqb t' t); lia.
   - eapply (lock_ok_step st st' t th th' 0 0 0 _ L Hth H); [ | eassumption | ].
     + intro c0. rewrite H0, H1, !hcnt_cons. simpl. destruct (Nat.eqb c0 0); lia.
     + intros. reflexivity.
@@ -163,12 +163,12 @@ Proof.
     { eapply Hown; eauto. simpl. rewrite Nat.eqb_refl. lia. }
     eapply (lock_ok_step st st' t th th' c 0 1 _ L Hth H); [ | eassumption | ].
     + intro c0. rewrite H0, H1, !hcnt_cons. simpl. destruct (Nat.eqb c0 c); lia.
-    + intros c0 t'. pose proof (depth_rel (mlocks st) c t c0 t' Hd). lia.
+    + intros c0 t'. pose proof (depth_rel (mlocks st) c t c0 t' Hd). destruct (Nat.eqb c0 c && Nat.eqb t' t); lia.
   - assert (Hd : 1 <= depth (nth_error (mlocks st) c) t).
     { eapply Hown; eauto. simpl. rewrite Nat.eqb_refl. lia. }
     eapply (lock_ok_step st st' t th th' c 0 1 _ L Hth H); [ | eassumption | ].
     + intro c0. rewrite H0, H1, !hcnt_cons. simpl. destruct (Nat.eqb c0 c); lia.
-    + intros c0 t'. pose proof (depth_rel (mlocks st) c t c0 t' Hd). lia.
+    + intros c0 t'. pose proof (depth_rel (mlocks st) c t c0 t' Hd). destruct (Nat.eqb c0 c && Nat.eqb t' t); lia.
   - (* a new cell with a free mutex *)
     eapply (lock_ok_step st st' t th th' 0 0 0 _ L Hth H); [ | eassumption | ].
     + intro c0. rewrite H0, H1, !hcnt_cons. simpl. destruct (Nat.eqb c0 0); lia.
